@@ -398,6 +398,7 @@ type runout struct {
 	timedOut bool
 
 	sumBefore, sumAfter *big.Int
+	ripemdQuirk         bool
 }
 
 func errClass(err error) string {
@@ -582,6 +583,12 @@ func runCase(k *tcase, traceOn bool, nestedBudget int, watchdog time.Duration) (
 		delete(precTable, key)
 	}
 	rootBefore, _, _ := stateFingerprint(st)
+	// the root as the end of a transaction computes it under EIP158 (touched empty accounts are deleted)
+	eip158 := params.MainnetChainConfig.IsEIP158(big.NewInt(k.Height))
+	var delBefore common.Hash
+	if eip158 && k.Kind == "call" {
+		delBefore = st.Copy().IntermediateRoot(true)
+	}
 	var rootNonce common.Hash
 	if k.Kind == "create" {
 		c := st.Copy()
@@ -649,6 +656,19 @@ func runCase(k *tcase, traceOn bool, nestedBudget int, watchdog time.Duration) (
 		}
 		if !okState || nlogs != 0 || refund != 0 {
 			t.findings = append(t.findings, finding{"failed-top-frame-not-reverted", fmt.Sprintf("top-level %s failed with %q but state root/logs/refund changed (logs %d refund %d)", k.Kind, r.res, nlogs, refund)})
+		} else if eip158 && k.Kind == "call" {
+			// the journal undoes a touch (touchChange.undo) for every address but 0x03 (ripemd), which stays in
+			// the dirty set on purpose (the mainnet incident the upstream code replays): after a FAILED frame that
+			// touched an empty account 0x03 the end-of-transaction root differs although every getter agrees.
+			// That is core/state behaviour (C09's known finding); here it is only recorded — any other address
+			// whose touch survives a failed frame is a violation.
+			if delAfter := st.Copy().IntermediateRoot(true); delAfter != delBefore {
+				if t.addrs[common.BytesToAddress([]byte{3})] {
+					r.ripemdQuirk = true
+				} else {
+					t.findings = append(t.findings, finding{"failed-frame-touch-survives", fmt.Sprintf("top-level call failed with %q, every getter is as before, but the EIP158 end-of-transaction root changed (a touch survived the revert) and 0x03 was not involved", r.res)})
+				}
+			}
 		}
 	}
 	return r, st
@@ -1093,6 +1113,20 @@ func (g *gen) templates() []*tcase {
 		a.pushU(0).op(0x52).pushU(3).op(0x54).pushU(32).op(0x52).pushU(64).pushU(0).op(0xf3)
 		add(fmt.Sprintf("tmpl/child-fails-%02x", o), "call", a.bytes(), nil, baseAccts(a.bytes(), libWriter(), libReverter()), "0x0", []uint64{30000, 200000})
 	}
+	// a failing frame that touched an EMPTY account sitting at a precompile address (0x03 is the journal's exception)
+	for _, p := range []int64{2, 3, 4} {
+		for _, viaChild := range []bool{false, true} {
+			touch := (&asm{}).pushU(0).pushU(0).pushU(0).pushU(0).pushU(0).pushU(uint64(p)).pushU(5000).op(0xf1, 0x50, 0xfe).bytes() // CALL p; INVALID
+			main, lib := touch, libWriter()
+			if viaChild {
+				a := &asm{}
+				a.pushU(0).pushU(0).pushU(0).pushU(0).pushU(0).pushA(addrLib).op(0x5a, 0xf1, 0x50).op(0xfe)
+				main, lib = a.bytes(), touch
+			}
+			accts := append(baseAccts(main, lib, libReverter()), acct{Addr: hx(big.NewInt(p)), Nonce: 0, Balance: "0x0", Code: "-"})
+			add("tmpl/touch-empty-precompile", "call", main, nil, accts, "0x0", []uint64{100000})
+		}
+	}
 	// value transfers: more than the balance, to a missing account, to a precompile
 	for _, v := range []uint64{1, 1000, 1001} {
 		for _, to := range []*big.Int{new(big.Int).SetBytes(addrNone[:]), new(big.Int).SetBytes(addrEmpty[:]), big.NewInt(3), big.NewInt(4)} {
@@ -1326,6 +1360,9 @@ func (ch *checker) check(k *tcase, withModel bool) *tracer {
 	}
 	c.Eval(fmt.Sprintf("%s|%s|%s", k.Class, epochOf(k.Height), strings.SplitN(rc, ":", 3)[0]), key)
 	ch.results[rc]++
+	if r.ripemdQuirk {
+		c.Count("observed/ripemd-touch-survives-failed-frame (core/state journal exception, see C09)")
+	}
 	// ---------------- direct oracle
 	if r.panicked {
 		c.Violate("panic/"+k.Class+"/"+firstLine(r.res), "the interpreter panicked: "+r.res, k)
@@ -1708,7 +1745,7 @@ func main() {
 			return 0
 		case k.Class == "scn/selfdestruct-fixed":
 			return 1
-		case strings.HasPrefix(k.Class, "tmpl/child"), strings.HasPrefix(k.Class, "tmpl/selfdestruct"), strings.HasPrefix(k.Class, "tmpl/value"):
+		case strings.HasPrefix(k.Class, "tmpl/child"), strings.HasPrefix(k.Class, "tmpl/selfdestruct"), strings.HasPrefix(k.Class, "tmpl/value"), strings.HasPrefix(k.Class, "tmpl/touch"):
 			return 2
 		case strings.HasPrefix(k.Class, "tmpl/recursion"), strings.HasPrefix(k.Class, "tmpl/create"):
 			return 3
